@@ -452,6 +452,8 @@ define_function(data_monte_carlo_pi)
   double mpi = 0;
 
   size_t i;
+  size_t mpos = 0;
+  unsigned int monte[6];
 
   int64_t offset = integer_argument(1);
   int64_t length = integer_argument(2);
@@ -470,8 +472,6 @@ define_function(data_monte_carlo_pi)
   {
     if (offset >= block->base && offset < block->base + block->size)
     {
-      unsigned int monte[6];
-
       size_t data_offset = (size_t) (offset - block->base);
       size_t data_len = (size_t) yr_min(
           length, (size_t) (block->size - data_offset));
@@ -486,9 +486,9 @@ define_function(data_monte_carlo_pi)
 
       for (i = 0; i < data_len; i++)
       {
-        monte[i % 6] = (unsigned int) *(block_data + data_offset + i);
+        monte[mpos % 6] = (unsigned int) *(block_data + data_offset + i);
 
-        if (i % 6 == 5)
+        if (mpos++ % 6 == 5)
         {
           double mx = 0;
           double my = 0;
